@@ -182,3 +182,36 @@ Proof.
     change (64 - 1) with 63.
     destruct (Z.ltb_spec (2 ^ 64 - v) (2 ^ 63)) as [H1|H1]; lia.
 Qed.
+
+Lemma case_label_value : forall m c a b,
+  case_wf m c a b = true ->
+  forall v, 0 <= v < 2 ^ 63 -> case_pos m c a v = v /\ case_neg m c a v = - v.
+Proof.
+  intros m c a b Hwf v Hv. unfold case_wf in Hwf.
+  apply andb_true_iff in Hwf. destruct Hwf as [Hwf _].
+  apply andb_true_iff in Hwf. destruct Hwf as [Hwf Ha].
+  apply andb_true_iff in Hwf. destruct Hwf as [Hm Hc].
+  apply Z.eqb_eq in Hm. apply Z.eqb_eq in Hc. apply Z.eqb_eq in Ha. subst m c a.
+  assert (P64 : 2 ^ 64 = 2 * 2 ^ 63) by reflexivity.
+  unfold case_pos, case_neg. split.
+  - rewrite (trunc_small 64 v) by lia.
+    assert (Hcv : conv 64 true v = v).
+    { apply conv_small; [lia | lia | exact (proj2 Hv)]. }
+    rewrite Hcv. exact Hcv.
+  - rewrite (trunc_small 64 v) by lia.
+    destruct (Z.eq_dec v 0) as [E|E].
+    + subst v. vm_compute. reflexivity.
+    + assert (Ht : trunc 64 (0 - v) = 2 ^ 64 - v).
+      { unfold trunc. replace (0 - v) with ((2 ^ 64 - v) + (-1) * 2 ^ 64) by lia.
+        rewrite Z.mod_add by lia. apply Z.mod_small. lia. }
+      rewrite Ht.
+      assert (Hc : conv 64 true (2 ^ 64 - v) = - v).
+      { unfold conv. rewrite trunc_small by lia. unfold to_signed.
+        change (64 <=? 0) with false. cbv iota. change (64 - 1) with 63.
+        destruct (Z.ltb_spec (2 ^ 64 - v) (2 ^ 63)) as [H1|H1]; lia. }
+      rewrite Hc.
+      unfold conv. unfold trunc. replace (- v) with ((2 ^ 64 - v) + (-1) * 2 ^ 64) by lia.
+      rewrite Z.mod_add by lia. rewrite Z.mod_small by lia. unfold to_signed.
+      change (64 <=? 0) with false. cbv iota. change (64 - 1) with 63.
+      destruct (Z.ltb_spec (2 ^ 64 - v) (2 ^ 63)) as [H1|H1]; lia.
+Qed.
